@@ -33,7 +33,7 @@ Example C02_ctx_of_centre_nonvacuous :
   wf ex_its /\ extract_k (get_rc ex_its) 2 = get_rc ex_its /\ length (gnodes (get_rc ex_its)) = 5%nat /\ extract_k ex_its 2 <> get_rc ex_its.
 Proof. split; [apply ex_its_wf|]. split; [reflexivity|]. split; [reflexivity|vm_compute; discriminate]. Qed.
 
-From SK Require Import proof.C02_Ctx proof.C02_CtxCentre.
+From SK Require Import proof.C02_Ctx proof.C02_CtxCentre proof.C02_CtxEquiv.
 
 (** find_unequal_order_edges sees the same atoms in every context of radius >= 1 as in the ITS (every bond it reports is a centre
     bond, and the context carries the centre), and remove_normal_edges of a context keeps exactly the centre's changed bonds *)
@@ -77,3 +77,38 @@ Example C02_ctxS_of_centre_nonvacuous :
   wf (emb_S ctxS_ex) /\ extract_k_S (get_rc_S K_default false false (emb_S ctxS_ex)) 3 = get_rc_S K_default false false (emb_S ctxS_ex) /\
   length (gnodes (get_rc_S K_default false false (emb_S ctxS_ex))) = 4%nat.
 Proof. split; [exact (proj1 C02_ctxS_nonvacuous)|]. split; reflexivity. Qed.
+
+(** * the property text as ONE statement (theorems 1-6 assembled), and its end-to-end form on a reaction *)
+Theorem property_statement (g : its) : wf g -> std_consistent g ->
+  (* a bond is in the centre iff its order differs between the two sides, H-H bonds additionally always *)
+  (forall u v e, adj (get_rc g) u v = Some e <->
+                 adj g u v = Some e /\ (e_G e <> e_H e \/ (is_h g u = true /\ is_h g v = true))) /\
+  (* exactly the atoms incident to those bonds, with their ITS labels *)
+  (forall n b, label (get_rc g) n = Some b <->
+               (exists a, label g n = Some a /\ b = rc_attr a) /\ (exists v e, adj (get_rc g) n v = Some e)) /\
+  (* the centre of the centre *)
+  geq (get_rc (get_rc g)) (get_rc g) /\
+  (* renumbering *)
+  (forall f : N -> N, (forall a b, f a = f b -> a = b) ->
+     get_rc (relabel f g) = relabel f (get_rc g) /\ forall k, extract_k (relabel f g) k = relabel f (extract_k g k)) /\
+  (* the radius-k context is exactly the atoms within k bonds of the centre (induced subgraph) *)
+  (forall k, (1 <= k)%nat ->
+     (forall n, In n (node_ids (extract_k g k)) <-> dist_le g (node_ids (get_rc g)) k n) /\
+     (forall n a, label (extract_k g k) n = Some a <-> label g n = Some a /\ dist_le g (node_ids (get_rc g)) k n) /\
+     (forall u v e, adj (extract_k g k) u v = Some e <->
+                    adj g u v = Some e /\ dist_le g (node_ids (get_rc g)) k u /\ dist_le g (node_ids (get_rc g)) k v)) /\
+  (* centre = context(0) within context(1) within context(2) ... within the ITS *)
+  (forall k k', (k <= k')%nat ->
+     extract_k g 0 = get_rc g /\
+     (forall n, In n (node_ids (extract_k g k)) -> In n (node_ids (extract_k g k'))) /\
+     (forall u v e, adj (extract_k g k) u v = Some e -> adj (extract_k g k') u v = Some e) /\
+     (forall n, In n (node_ids (extract_k g k')) -> In n (node_ids g)) /\
+     (forall u v e, adj (extract_k g k') u v = Some e -> adj g u v = Some e)).
+Proof.
+  intros W Hs. split; [apply rc_edges; assumption|]. split; [apply rc_nodes; exact W|]. split; [apply rc_idem; exact W|].
+  split; [intros f Hinj; split; [apply (rc_equivariant f Hinj)|intros k; apply (C02_CtxEquiv.ctx_equivariant f Hinj)]|].
+  split; [intros k Hk; exact (ctx_spec g W k Hk)|intros k k' Hk; exact (ctx_chain g W k k' Hk)].
+Qed.
+
+Example C02_property_statement_nonvacuous : wf ex_its /\ std_consistent ex_its /\ gedges (get_rc ex_its) <> [] /\ extract_k ex_its 1 <> extract_k ex_its 2.
+Proof. split; [apply ex_its_wf|]. split; [apply ex_its_std|]. split; vm_compute; discriminate. Qed.
